@@ -46,6 +46,9 @@ from irlib import tyname
 RING_HEAD = 'struct.ring_head'
 
 
+OOB = []        # (function, where, detail): accesses outside their object met while interpreting the (concrete) scenarios
+
+
 class Unres(AnalysisBroken):
     """the scenario cannot be analysed exactly (never a verdict)"""
 
@@ -68,8 +71,9 @@ class ExactMixin:
         self.loops_seen += 1
         r = self.try_peel(fn, L, st, frm, rets)
         if r is None:
-            raise Unres('the loop at %s in %s is not decided by the scenario within %d iterations'
-                        % (L['header'].term.where(), fn.name, self.max_peel))
+            raise Unres('the loop at %s in %s is not decided by the scenario within %d iterations%s'
+                        % (L['header'].term.where(), fn.name, self.max_peel,
+                           ' (%s)' % self.last_peel_error if getattr(self, 'last_peel_error', None) else ''))
         return r
 
     def binop(self, st, op, a, b, inst):
@@ -180,6 +184,11 @@ def interpret(mod, fname, sspecs, setup, ctor=False, dtor=False, externals=None,
         run.run(fname, spec, fn=fn)
     finally:
         it.stack = []
+        # an access outside its object in a scenario is a verdict of its own, whatever becomes of the scenario afterwards (the
+        # interpreter continues on the in-bounds assumption, which usually leaves no path: "loop not decided")
+        for ob in it.obligs.values():
+            if ob.kind.startswith('bounds:') and not ob.ok:
+                OOB.append((fname, ob.where, ob.detail))
     if it.unknown_calls:
         raise Unres('call(s) to function(s) that are not analysed: %s' % sorted(it.unknown_calls))
     for ob in it.obligs.values():
@@ -1483,9 +1492,22 @@ def run_ext(rep, repo, tier):
         section('R-RINGLIFE igris::ring<VTr>', lambda: ringlife_scenarios(rep, repo, tier, modl))
         section('R-RINGLIFE igris::cyclic_buffer<VTr>', lambda: cyclife_scenarios(rep, repo, tier, modl))
 
+    del OOB[:]
     section('R-FIFO-C', part_a)
     section('R-FIFO-XX', part_b)
     section('R-RINGLIFE', part_c)
+    from irlib import demangle1
+    seen_oob = set()
+    for (fname, where, detail) in OOB:
+        if fname in seen_oob:
+            continue
+        seen_oob.add(fname)
+        nice = demangle1(fname).split('(')[0]
+        rep.inst('R-FIFO-ACCESS', nice, 'every access of the interpreted scenarios lies inside its object', False, where,
+                 'in a reachable configuration (concrete ring size, head and tail) %s' % detail)
+    if not OOB:
+        rep.inst('R-FIFO-ACCESS', 'all interpreted ring routines', 'scenarios without an access outside its object', True,
+                 'checks/c03_content.py')
     rep.floor('R-FIFO-C:analysed', 4)
     rep.floor('R-FIFO-C:content', 30)
     rep.floor('R-FIFO-XX:analysed', 14)
